@@ -6,7 +6,7 @@
    All statements quantify over every trace [tr] of labelled steps (every interleaving / schedule, any number of
    threads, any programs: a thread may invoke any call whenever it is idle). *)
 Require Import PV.Base.Prelude PV.Model.Conc PV.Model.VecConc.
-Require Import PV.Proofs.VecConcBase PV.Proofs.VecConcLin PV.Proofs.VecConcFacts.
+Require Import PV.Proofs.VecConcBase PV.Proofs.VecConcLin PV.Proofs.VecConcFacts PV.Proofs.VecConcRT.
 From Coq Require Import Sorted Permutation.
 Open Scope N_scope.
 
@@ -86,6 +86,18 @@ Theorem c10_removed_not_collected nl tr s L1 o r k L2 kcs L3 : vrun (vinit nl) t
   chron s = L1 ++ (o, r) :: L2 ++ (ACollect, RKeys kcs) :: L3 -> kills k o ->
   (forall o' r', In (o', r') L2 -> o' <> AGet k) -> ~ In k (map fst kcs).
 Proof. intros H. exact (removed_not_collected nl tr s (vrun_reach nl tr s H) L1 o r k L2 kcs L3). Qed.
+
+(* the same on the call / return markers alone: if a remove of k (or a reset) returned before a collection was invoked, and every
+   with_label_values(k) call invoked before the collection returned had itself returned before that removal was invoked, then the
+   collection does not show k *)
+Theorem c10_removed_not_collected_real_time nl tr s k t1 c1 r1 ti1 tr1 t2 l ti2 tr2 :
+  vrun (vinit nl) tr = Some s ->
+  In (t1, c1, r1, ti1, tr1) (g_done s) -> removal_call nl k c1 ->
+  In (t2, CVCollect, RColl l, ti2, tr2) (g_done s) -> (tr1 < ti2)%nat ->
+  (forall i t d, nth_error tr i = Some (LE (ECall t (CWithInc k d))) -> (i < tr2)%nat ->
+                 exists j r, nth_error tr j = Some (LE (ERet t r)) /\ (i < j < ti1)%nat) ->
+  ~ In k (map fst l).
+Proof. exact (removed_not_collected_real_time nl tr s k t1 c1 r1 ti1 tr1 t2 l ti2 tr2). Qed.
 
 (* a handle stays usable whatever happened to the map: its fetch_add is enabled, updates the cell, leaves the map alone, and is
    invisible to the abstract map if the child is no longer in it *)
@@ -198,6 +210,7 @@ Print Assumptions c10_no_lost_update.
 Print Assumptions c10_cell_is_sum_of_updates.
 Print Assumptions c10_no_duplicate_keys.
 Print Assumptions c10_removed_not_collected.
+Print Assumptions c10_removed_not_collected_real_time.
 Print Assumptions c10_handle_survives_removal.
 Print Assumptions c10_recreated_is_fresh.
 Print Assumptions c10_insert_allocates_fresh_cell.
